@@ -941,10 +941,18 @@ class Operation:
                 self.ofm_shapes.append(Shape4D(full_shape(4, ofm_tensor.shape, 1)))
 
     def has_scaling(self):
+        # This has to be the criterion of register_command_stream_generator.get_arch_block_config, which checks the
+        # block config selected with it: a feature map is scaled if its quantization (as the high level command stream
+        # hands it over, see get_ifm_or_ifm2_quantization/get_ofm_quantization) has a scale
         scaled = True
-        for tensor in [self.ifm, self.ifm2, self.ofm]:
+        for tensor, forced_quant in (
+            (self.ifm, self.forced_input_quantization),
+            (self.ifm2, self.forced_input_quantization),
+            (self.ofm, self.forced_output_quantization),
+        ):
             if tensor is not None:
-                if tensor.quantization is None:
+                quant = forced_quant if forced_quant is not None else tensor.quantization
+                if quant is None or quant.scale_f32 is None:
                     scaled = False
                     break
 
